@@ -162,7 +162,7 @@ def calculate_snr(
         noise_power = torch.mean(noise**2, dim=dim, keepdim=keepdim)
 
     # Handle zero noise case
-    eps = torch.finfo(original_power.dtype).eps
+    eps = torch.finfo(original_power.dtype).tiny  # only guards against division by zero; a floor of eps (1.2e-7) would distort weak signals at high SNR
     noise_power = torch.clamp(noise_power, min=eps)
 
     # Calculate SNR in dB
